@@ -163,10 +163,11 @@ func genE4History(t *rapid.T, o e4GenOpts) e4Case {
 		}
 		if len(all) > 0 {
 			kinds = append(kinds, "reopen")
-			if hx.Active("KF-E4-REMOVE") {
-				hx.Excluded(o.prop, "KF-E4-REMOVE")
-			} else if !o.noRemove {
+			if !o.noRemove {
 				kinds = append(kinds, "remove", "remove")
+				if len(files) >= 2 && rapid.IntRange(0, 3).Draw(t, "squeezeChance") == 0 {
+					kinds = append(kinds, "squeeze")
+				}
 			}
 			if o.attrs {
 				for k := 0; k < 5; k++ {
@@ -285,14 +286,32 @@ func genE4History(t *rapid.T, o e4GenOpts) e4Case {
 		case "populate":
 			d := pickDir()
 			counter++
-			c.Ops = append(c.Ops, e4Op{K: "populate", P: d, N: rapid.SampledFrom([]int{10, 40, 90, 200}).Draw(t, "popN"), D: mk.Content{Seed: uint32(counter)}, Chunk: rapid.SampledFrom([]int{0, 0, 1}).Draw(t, "popLong")})
+			// Chunk 0: short names, empty files; 1: long names, empty files; 2: 200-byte names and one block of content
+			// per file, so that the directory's blocks are separated by data blocks (a fifth non-mergeable
+			// directory extent forces the re-layout branch of writeDirectory)
+			c.Ops = append(c.Ops, e4Op{K: "populate", P: d, N: rapid.SampledFrom([]int{10, 40, 90, 200}).Draw(t, "popN"), D: mk.Content{Seed: uint32(counter)}, Chunk: rapid.SampledFrom([]int{0, 0, 1, 2, 2}).Draw(t, "popLong")})
 			dn := m.Lookup(d)
 			for j := 0; j < c.Ops[len(c.Ops)-1].N; j++ {
 				nm := e4PopName(c.Ops[len(c.Ops)-1], j)
 				if dn.Children[nm] == nil {
-					_, _ = m.Create(model.Join(d, nm))
+					if n, _ := m.Create(model.Join(d, nm)); n != nil {
+						n.WriteAt(0, e4PopData(c.Ops[len(c.Ops)-1], j, bs))
+					}
 				}
 			}
+		case "squeeze":
+			vi := rapid.IntRange(0, len(files)-1).Draw(t, "sqzVictim")
+			gi := rapid.IntRange(0, len(files)-2).Draw(t, "sqzGrow")
+			if gi >= vi {
+				gi++
+			}
+			counter++
+			if vn, gn := m.Lookup(files[vi]), m.Lookup(files[gi]); vn != nil && gn != nil {
+				n := len(vn.Data)
+				_ = m.Remove(files[vi])
+				gn.WriteAt(int64(len(gn.Data)), make([]byte, n))
+			}
+			c.Ops = append(c.Ops, e4Op{K: "squeeze", P: files[vi], Q: files[gi], Chunk: int(c.Cfg.Size/24) + rapid.IntRange(0, 700).Draw(t, "sqzOdd"), D: mk.Content{Seed: uint32(counter)}})
 		case "fill":
 			d := pickDir()
 			counter++
@@ -317,7 +336,18 @@ func pickNonLink(t *rapid.T, m *model.Tree, all []string) string {
 	return rapid.SampledFrom(c).Draw(t, "attrTarget")
 }
 
+// e4PopData is the content of the j-th file of a populate op (only style 2 writes any).
+func e4PopData(op e4Op, j, bs int) []byte {
+	if op.Chunk != 2 {
+		return nil
+	}
+	return mk.Content{Seed: op.D.Seed*4096 + uint32(j), Len: bs + j%3}.Bytes()
+}
+
 func e4PopName(op e4Op, j int) string {
+	if op.Chunk == 2 {
+		return fmt.Sprintf("%s-%04d-of-batch-%d", strings.Repeat("very-long-name-", 13), j, op.D.Seed)
+	}
 	if op.Chunk == 1 {
 		return fmt.Sprintf("populated-entry-with-a-long-name-%04d-of-batch-%d.dat", j, op.D.Seed)
 	}
@@ -1311,23 +1341,56 @@ func (x *e4Run) execOp(op e4Op) {
 			if x.m.Lookup(p) != nil {
 				continue
 			}
-			err := x.openWrite(p, os.O_RDWR|os.O_CREATE, 0, nil, false)
+			data := e4PopData(op, j, x.c.Cfg.blockSize())
+			pn, _ := x.m.Create(p)
+			if pn != nil && len(data) > 0 {
+				pn.WriteAt(0, data)
+			}
+			err := x.openWrite(p, os.O_RDWR|os.O_CREATE, 0, data, false)
 			if x.r.Failed() {
 				return
 			}
 			if err != nil {
 				x.r.Class("refused:populate")
 				x.sawRefusal = true
+				x.m.Drop(p)
 				x.resync(p)
 				break
 			}
-			_, _ = x.m.Create(p)
 			made++
 		}
 		if len(dn.Children)*24 > x.c.Cfg.blockSize() {
 			x.bigDir = true
 			x.r.Class("dir>1block")
 		}
+	case "squeeze":
+		// fill the volume, remove one file, grow another by as many bytes (the growth may be refused: an extent
+		// tree can need blocks of its own), then remove the fill file; every sub-step is compared and checked
+		vn, gn := x.m.Lookup(op.P), x.m.Lookup(op.Q)
+		if vn == nil || gn == nil || vn == gn || vn.Dir || gn.Dir || vn.Link || gn.Link {
+			return
+		}
+		fill := fmt.Sprintf("sqz%d.bin", op.D.Seed)
+		n := len(vn.Data)
+		for i, sub := range []e4Op{
+			{K: "fill", P: fill, Chunk: op.Chunk, D: op.D},
+			{K: "remove", P: op.P},
+			{K: "append", P: op.Q, D: mk.Content{Seed: op.D.Seed*1000 + 999, Len: n}},
+			{K: "remove", P: fill},
+		} {
+			x.exec(sub)
+			if x.r.Failed() || x.aborted {
+				return
+			}
+			if i < 3 {
+				x.compare(fmt.Sprintf("squeeze after %s", sub.K))
+				x.structural(fmt.Sprintf("squeeze after %s", sub.K))
+				if x.r.Failed() || x.aborted {
+					return
+				}
+			}
+		}
+		x.r.Class("squeeze:done")
 	case "fill":
 		if x.m.Lookup(op.P) != nil {
 			return
